@@ -169,7 +169,10 @@ func diffMap(old map[string]interface{}, newAny interface{}) interface{} {
 				d[k] = innerD
 			}
 		} else {
-			d[k] = newV
+			// A field that was not there before is a replacement of nothing: wrap
+			// complex values (and strip their keys) like any other replacement. A
+			// raw array or object would be read as a delta by the client.
+			d[k] = markReplaced(newV)
 		}
 	}
 
